@@ -44,6 +44,27 @@ class ReadProbe:
         return getattr(self.real, name)
 
 
+class HookStream(RecStream):
+    """RecStream whose read() first runs `hook()` whenever `when(call index)` holds: the stream's
+    consumer is suspended inside its read callback while something else runs (greenlet-style
+    re-entrancy, deterministic)"""
+
+    def __init__(self, data, sched, when, hook):
+        super().__init__(data, sched)
+        self.when, self.hook, self.fired = when, hook, 0
+
+    def read(self, n=-1):
+        i = len(self.calls)
+        if self.when(i):
+            self.fired += 1
+            self.hook()
+        return super().read(n)
+
+
+def _guard(go, watch):
+    return core.with_timeout(go, 10) if watch else go()
+
+
 def modules():
     from ombott.request_pkg import body_mixin, errors
     return body_mixin, errors
@@ -52,16 +73,16 @@ def modules():
 # --------------------------------------------------------------------------------------
 # unit entry point
 
-def run_read(data, sched, buf, cl, chunked, maxb):
-    """-> dict(ok, bytes|err, spill, req, maxoff, calls)"""
+def run_read(data, sched, buf, cl, chunked, maxb, hook=None, watch=True):
+    """-> dict(ok, bytes|err, spill, req, maxoff, calls); hook = (when, fn) runs fn inside read()"""
     bm, _ = modules()
-    st = RecStream(data, sched)
+    st = HookStream(data, sched, *hook) if hook else RecStream(data, sched)
     res = dict(ok=False, err=None, bytes=None, spill=None)
 
     def go():
         return bm._body_read(st.read, buf, content_length=cl, chunked=chunked, max_body_size=maxb)
     try:
-        body = core.with_timeout(go, 10)
+        body = _guard(go, watch)
         res['ok'] = True
         res['spill'] = not isinstance(body, io.BytesIO)
         body.seek(0)
@@ -100,9 +121,10 @@ MAPS = {
 _apps = {}
 
 
-def get_app(map_key, memfile, maxbody):
-    """one real application per configuration; its handler runs the op list in `app.verif_ops`"""
-    key = (map_key, memfile, maxbody, core.REPO)
+def get_app(map_key, memfile, maxbody, tag=''):
+    """one real application per configuration (and `tag`: a second, independent application object
+    for an overlapping request); its handler runs the op list in `app.verif_ops`"""
+    key = (map_key, memfile, maxbody, core.REPO, tag)
     app = _apps.get(key)
     if app is not None:
         return app
@@ -116,9 +138,30 @@ def get_app(map_key, memfile, maxbody):
     app.verif_ops, app.verif_outs, app.verif_info = [], [], {}
 
     def handler():
-        rq = app.request
+        rq = orig = app.request
         outs, info = app.verif_outs, app.verif_info
         for op in app.verif_ops:
+            # statements that are not body accesses: replace the stream / assign CONTENT_LENGTH through the
+            # request's item assignment, continue on a copy of the request, go back to the original
+            if op[0] == 'R':
+                d, sc = op[1:].split('/')
+                new = RecStream(core.unhb(d), [] if sc == '-' else [int(x) for x in sc.split('.')])
+                info['streams'].append(new)
+                rq['wsgi.input'] = new
+                outs.append('r')
+                continue
+            if op[0] == 'L':
+                rq['CONTENT_LENGTH'] = core.unhs(op[1:])
+                outs.append('l')
+                continue
+            if op == 'K':
+                rq = orig.copy()
+                outs.append('k')
+                continue
+            if op == 'O':
+                rq = orig
+                outs.append('o')
+                continue
             if op[0] == '?':          # the handler catches whatever the access raises and carries on
                 try:
                     run_op(rq, op[1:], outs, info)
@@ -175,9 +218,9 @@ def get_app(map_key, memfile, maxbody):
     return app
 
 
-def run_wsgi(map_key, memfile, maxbody, cl_hdr, te_hdr, data, sched, ops, ctype=None):
-    app = get_app(map_key, memfile, maxbody)
-    st = RecStream(data, sched)
+def run_wsgi(map_key, memfile, maxbody, cl_hdr, te_hdr, data, sched, ops, ctype=None, hook=None, watch=True, tag=''):
+    app = get_app(map_key, memfile, maxbody, tag)
+    st = HookStream(data, sched, *hook) if hook else RecStream(data, sched)
     errs = io.StringIO()
     env = {'REQUEST_METHOD': 'POST', 'PATH_INFO': '/x', 'SCRIPT_NAME': '', 'QUERY_STRING': '',
            'SERVER_NAME': 'verif', 'SERVER_PORT': '80', 'SERVER_PROTOCOL': 'HTTP/1.1',
@@ -189,7 +232,7 @@ def run_wsgi(map_key, memfile, maxbody, cl_hdr, te_hdr, data, sched, ops, ctype=
         env['HTTP_TRANSFER_ENCODING'] = te_hdr
     if ctype is not None:
         env['CONTENT_TYPE'] = ctype
-    app.verif_ops, app.verif_outs, app.verif_info = list(ops), [], {}
+    app.verif_ops, app.verif_outs, app.verif_info = list(ops), [], {'streams': [st]}
     started = []
 
     def start_response(status, headers, exc_info=None):
@@ -204,7 +247,7 @@ def run_wsgi(map_key, memfile, maxbody, cl_hdr, te_hdr, data, sched, ops, ctype=
         return body
     res = dict(status=None, outs=list(app.verif_outs), info=app.verif_info)
     try:
-        res['resp_body'] = core.with_timeout(go, 10)
+        res['resp_body'] = _guard(go, watch)
         res['status'] = int(started[0].split()[0]) if started else None
     except core.Hang:
         res['status'] = 'HANG'
@@ -219,7 +262,12 @@ def run_wsgi(map_key, memfile, maxbody, cl_hdr, te_hdr, data, sched, ops, ctype=
             b.close()
         except Exception:
             pass
-    res.update(req=sum(st.requested), maxoff=st.maxoff, calls=st.calls, stderr=errs.getvalue()[-400:])
+    sts = app.verif_info.get('streams', [st])
+    if len(sts) == 1:
+        res.update(req=sum(st.requested), maxoff=st.maxoff)
+    else:       # one number per stream created, in creation order
+        res.update(req=','.join(str(sum(x.requested)) for x in sts), maxoff=','.join(str(x.maxoff) for x in sts))
+    res.update(calls=st.calls, streams=sts, stderr=errs.getvalue()[-400:])
     return res
 
 
@@ -379,3 +427,152 @@ def replay_correspondence(data):
         out['impl_now'] = f'failed: {type(e).__name__}: {e}'
     out['agree_now'] = out.get('impl_now') == out.get('model_now')
     return out
+
+
+# --------------------------------------------------------------------------------------
+# overlap: a complete decode of another request B runs while request A is suspended inside its
+# wsgi.input.read callback.  Nothing of A may change: its result must be its solo result.
+
+def when_of(spec):
+    """spec = ['at', i, j, ...] (call indices) | ['every', k, phase]"""
+    if spec[0] == 'at':
+        idx = set(spec[1:])
+        return lambda i: i in idx
+    k, ph = spec[1], spec[2]
+    return lambda i: i % k == ph
+
+
+def b_runner(mode, b, sink):
+    """b = dict(raw, sched, buf, cl, chunked); appends B's canonical answer to `sink` each time it ran"""
+    import threading
+
+    def unit():
+        sink.append(ans_read(run_read(b['raw'], b['sched'], b['buf'], b['cl'], b['chunked'], None, watch=False)))
+
+    def wsgi():
+        r = run_wsgi('@', b['buf'], None, None if b['chunked'] else str(b['cl']), 'chunked' if b['chunked'] else None,
+                     b['raw'], b['sched'], ['B'], watch=False, tag='B')
+        sink.append(ans_wsgi(r))
+
+    def thread():
+        t = threading.Thread(target=(wsgi if mode == 'thread-wsgi' else unit))
+        t.start()
+        t.join(20)
+        if t.is_alive():
+            sink.append('HANG')
+    return dict(unit=unit, wsgi=wsgi).get(mode, thread)
+
+
+def solo_b(mode, b):
+    sink = []
+    b_runner('wsgi' if 'wsgi' in mode else 'unit', b, sink)()
+    return sink[0]
+
+
+def run_alternate(a, b, order):
+    """unit level below _body_read: the two body generators advanced alternately with next();
+    `order` = pattern of 'a'/'b' turns (repeated); returns the two canonical results"""
+    bm, _ = modules()
+    out = {}
+    gens = {}
+    for k, x in (('a', a), ('b', b)):
+        st = RecStream(x['raw'], x['sched'])
+        gens[k] = (bm._iter_chunked(st.read, x['buf']) if x['chunked']
+                   else bm._iter_body(st.read, x['buf'], content_length=x['cl']))
+        out[k] = []
+    done = {}
+
+    def go():
+        i = 0
+        while len(done) < 2:
+            k = order[i % len(order)]
+            i += 1
+            if k in done:
+                k = 'b' if k == 'a' else 'a'
+            try:
+                out[k].append(next(gens[k]))
+            except StopIteration:
+                done[k] = 'ok ' + hb(b''.join(out[k]))
+            except Exception as e:
+                done[k] = 'err ' + type(e).__name__
+    try:
+        core.with_timeout(go, 10)
+    except core.Hang:
+        return 'HANG', 'HANG'
+    return done['a'], done['b']
+
+
+def gen_overlap_b(rng, chunked=True):
+    """request B: own stream, own sizes (digits differ from the usual small ones)"""
+    if chunked:
+        chunks = []
+        for _ in range(rng.randint(1, 3)):
+            n = rng.choice([11, 17, 26, 33, 0x2b, 0x1c, 7])
+            chunks.append((gen_payload(rng, n), spell(n, rng.random() < .5, rng.choice([0, 1])), rng.choice(EXTS[:5])))
+        enc = Enc(chunks, (b'0', b''), b'\r\n')
+        raw = enc.encode()
+        return dict(raw=raw, sched=rng.choice([[], [1] * (len(raw) + 2), [2, 1, 3] * 20]), buf=max(8, enc.max_line()),
+                    cl=-1, chunked=True)
+    n = rng.randint(1, 40)
+    return dict(raw=gen_payload(rng, n) + b'zz', sched=rng.choice([[], [1] * 50]), buf=rng.choice([1, 3, 8]), cl=n,
+                chunked=False)
+
+
+def overlap_check(a, b, mode, spec):
+    """the overlap oracle on the real code: A decoded with a complete decode of B inside A's read
+    callback (or the two generators advanced alternately) must give A's and B's solo results.
+    a, b = dict(raw, sched, buf, cl, chunked); returns None or (what)"""
+    if mode == 'alternate':
+        solo = (run_alternate(a, b, 'a')[0], run_alternate(a, b, 'b')[1])     # one after the other
+        got = run_alternate(a, b, spec)
+        if got != solo:
+            return f'generators advanced alternately ({spec!r}): A, B gave {got}, solo {solo}'
+        return None
+    sink = []
+    hook = (when_of(spec), b_runner(mode, b, sink))
+    if 'wsgi' in mode:
+        clh, te = (None, 'chunked') if a['chunked'] else (str(a['cl']), None)
+        solo_a = ans_wsgi(run_wsgi('@', a['buf'], None, clh, te, a['raw'], a['sched'], ['B', 'B']))
+        got_a = ans_wsgi(run_wsgi('@', a['buf'], None, clh, te, a['raw'], a['sched'], ['B', 'B'], hook=hook))
+    else:
+        solo_a = ans_read(run_read(a['raw'], a['sched'], a['buf'], a['cl'], a['chunked'], None))
+        got_a = ans_read(run_read(a['raw'], a['sched'], a['buf'], a['cl'], a['chunked'], None, hook=hook))
+    if got_a != solo_a:
+        return f'{mode}: request A decoded while B ran inside its read callback gave [{got_a}], alone [{solo_a}]'
+    sb = solo_b(mode, b)
+    for x in sink:
+        if x != sb:
+            return f'{mode}: request B decoded inside A\'s read callback gave [{x}], alone [{sb}]'
+    return None
+
+
+def pack_req(x):
+    return dict(x, raw=x['raw'].hex())
+
+
+def unpack_req(x):
+    return dict(x, raw=bytes.fromhex(x['raw']))
+
+
+def gen_spec(rng, ncalls=40):
+    k = rng.randrange(4)
+    if k == 0:
+        return ['every', rng.randint(1, 5), 0]
+    if k == 1:
+        m = rng.randint(2, 6)
+        return ['every', m, rng.randrange(m)]
+    return ['at'] + sorted({rng.randrange(ncalls) for _ in range(rng.randint(1, 3))})
+
+
+def solo_calls(a):
+    return len(run_read(a['raw'], a['sched'], a['buf'], a['cl'], a['chunked'], None)['calls'])
+
+
+def rop(data, sched=()):
+    """the handler statement `request['wsgi.input'] = RecStream(data, sched)`"""
+    return f'R{hb(data)}/{".".join(str(x) for x in sched) or "-"}'
+
+
+def lop(text):
+    """the handler statement `request['CONTENT_LENGTH'] = text`"""
+    return 'L' + hs(text)
